@@ -278,4 +278,8 @@ def run(ctx):
                 else:
                     res.check(ok, "D-LABELIDX", v.fi.short, norm(r), "pairing", "labels are paired with vector entries by position in get_nodes() (insertion order) although the vector is indexed by label: scores land on the wrong nodes unless nodes were inserted in increasing order", loc(v.fi, r))
     res.assumptions += ["CEC / ZEC / HEC / apply index by node label (one-symbol exemptions: the property restricts them to hypergraphs labelled 0..N-1)", "networkx functionals are trusted"]
+    with res.guard("general lint pack over the property's files"):
+        from ..lints import check_pack
+
+        check_pack(ctx, res, "C20")
     return res
